@@ -13,8 +13,11 @@ GROUPS = ['CH3', 'CH2', 'OH', 'CO', 'NH2']
 def refs_case(draw):
     use_groups = draw(st.sampled_from([False, False, True]))
     pool = GROUPS if use_groups else DESCS
+    if use_groups and draw(st.booleans()):
+        # free-form descriptor names: mixed case, digits, names that sort differently with and without case
+        pool = draw(st.permutations(['CH3', 'Ca', 'cH2', 'OH', 'Oa', 'b1', 'B2', 'Zn']))
     nd = draw(st.integers(1, 5))
-    descs = pool[:nd]
+    descs = list(pool[:nd])
     nref = draw(st.integers(1, 8))
     rank_mode = draw(st.sampled_from(['any', 'any', 'duplicate-row', 'missing-descriptor', 'late-descriptor']))
     comps = []
@@ -242,6 +245,11 @@ def check_refs(case, ctx):
                     base = abs(float(getattr(withr, g)(units=u, T=T)))
                     ctx.close('C10.refs/shift:%s' % g, d_on, exp_shift, rtol=1e-9, atol=1e-11 * (base + sc_e),
                               detail='T=%r comp=%r' % (T, comp))
+                    # the temperature may equally arrive through the species' own keyword block only
+                    blk = {'%s_kwargs' % withr.name: {'T': T}}
+                    gd = g.replace('get_H', 'get_HoRT').replace('get_G', 'get_GoRT')
+                    ctx.close('C10.refs/T-through-species-kwargs-block:%s' % gd, getattr(withr, gd)(**blk), getattr(withr, gd)(T=T),
+                              rtol=1e-12, atol=1e-12 * (1 + abs(exp_shift / (Ru * T))), detail='T=%r comp=%r' % (T, comp))
                     if early is not None and comp is case['tcomp']:
                         d_early = getattr(early, g)(units=u, T=T) - getattr(early, g)(units=u, T=T, use_references=False)
                         ctx.close('C10.refs/shift-seen-by-a-species-built-before-the-refit:%s' % g, d_early, exp_shift, rtol=1e-9,
